@@ -158,7 +158,37 @@ def _renest_one(tree: ast.Module, rel: str, qual: str, ref_params: List[str], kn
     params = [a.arg for a in args.args]
     offset = 1 if method and not static and params and params[0] in ("self", "cls") else 0
     calls = _calls_of(outer, helper.name, method)
-    if _references(outer, helper.name, method):
+    # `partial(helper, a, b)` with plain names: the leading parameters are closure variables under another spelling
+    partials = [n for n in ast.walk(outer) if isinstance(n, ast.Call) and not n.keywords and n.args
+                and ast.unparse(n.func) in ("partial", "functools.partial") and _is_ref(n.args[0], helper.name, method)
+                and all(isinstance(a, ast.Name) for a in n.args[1:])]
+    bound = {tuple(a.id for a in n.args[1:]) for n in partials}  # type: ignore[attr-defined]
+    if partials and not calls and len(bound) == 1 and _references(outer, helper.name, method) == len(partials) \
+            and len(next(iter(bound))) <= len(params) - offset:
+        closure = {params[offset + i]: name for i, name in enumerate(next(iter(bound)))}
+        for node in ast.walk(outer):
+            for field, value in ast.iter_fields(node):
+                if isinstance(value, ast.AST) and any(value is c for c in partials):
+                    setattr(node, field, ast.copy_location(ast.Name(id=inner, ctx=ast.Load()), value))
+                elif isinstance(value, list):
+                    for i, item in enumerate(value):
+                        if any(item is c for c in partials):
+                            value[i] = ast.copy_location(ast.Name(id=inner, ctx=ast.Load()), item)
+
+        def drop_self_assign(stmts):
+            out = []
+            for st in stmts:
+                if isinstance(st, ast.Assign) and len(st.targets) == 1 and isinstance(st.targets[0], ast.Name) \
+                        and st.targets[0].id == inner and isinstance(st.value, ast.Name) and st.value.id == inner:
+                    continue
+                for field in ("body", "orelse", "finalbody"):
+                    sub = getattr(st, field, None)
+                    if isinstance(sub, list) and sub and isinstance(sub[0], ast.stmt):
+                        setattr(st, field, drop_self_assign(sub) or [ast.copy_location(ast.Pass(), st)])
+                out.append(st)
+            return out
+        outer.body = drop_self_assign(outer.body)
+    elif _references(outer, helper.name, method):
         # the function itself is handed on (a sort key): every parameter stays a parameter
         closure: Dict[str, str] = {}
     else:
